@@ -175,7 +175,7 @@ func LookupXpathFunction(
 	defer mu.Unlock() // Ensure the mutex is unlocked when the function exits
 
 	if !pluginsLoaded {
-		RegisterCustomFunctions(openPlugins())
+		registerCustomFunctions(openPlugins())
 	}
 	if sym, ok := xpathFunctionTable[name]; ok {
 		if !sym.custom || customFnsAllowed {
